@@ -44,7 +44,8 @@ Status after round 7 (all general, unbounded unless marked):
   excluded; `val`/`bits`: the fix-up value).  `unk_class_deviates` (decide): on the corpus model the built table has −0.125 for
   `b <unk>` where `Table.build` has −100.125.  `example_end_to_end_unk`: all hypotheses hold for a hallucinated-`<unk>` model
   with n-grams ending in the literal `<unk>` and a blank elsewhere.
-* G4 OPEN — `ofTable` for ArrayBhiksha / SeparatelyQuantize layouts (compared through lookups only).
+* G4 CLOSED IN ROUND 8 up to the layout hypothesis `ShapeG` — see Properties/C03TrieG.lean (`ofTableG_represents` for all four
+  trie classes, `trie_end_to_end_array`, `trie_end_to_end_quant_exact`; byte-for-byte stream `triebuild4`).
 * Modelling assumptions that remain hypotheses: exactness of the float sums on the model's blanks (`BlankArith`), the value
   encoding (`ArpaEncW`), sizes below 2^57 (`SmallOK`); SortedVocabulary renumbering and the merge of sorted batches are
   modelled by their result (C20 `sorted_vocab_correct`, C16 `extSort_unique`).
